@@ -183,13 +183,13 @@ def _clean(x):
     return x
 
 
-def _validate_shard(module, cfg, cases, scratch, idx, timeout):
+def _validate_shard(module, cfg, cases, scratch, idx, timeout, env=None):
     path = os.path.join(scratch, f"cases_{module}_{idx}_{os.getpid()}_{time.time_ns()}.ndjson")
     with open(path, "w") as f:
         for c in cases:
             f.write(json.dumps(_clean(c), separators=(",", ":")) + "\n")
     try:
-        r = run_tlc(module, cfg, scratch, workers=1, env={"CASES": path}, timeout=timeout, heap="3g")
+        r = run_tlc(module, cfg, scratch, workers=1, env=dict(env or {}, CASES=path), timeout=timeout, heap="3g")
     finally:
         os.unlink(path)
     from tlaval import parse
@@ -206,7 +206,7 @@ def _validate_shard(module, cfg, cases, scratch, idx, timeout):
     return verdicts, r
 
 
-def validate(module, cases, scratch, cfg=None, shards=None, timeout=900):
+def validate(module, cases, scratch, cfg=None, shards=None, timeout=900, env=None):
     """Hand implementation results to TLC. Every case must have a unique 'id'. Returns
     {id: clause} with a verdict for every case (total), plus summed TLC stats."""
     cfg = cfg or "Check.cfg"
@@ -223,7 +223,7 @@ def validate(module, cases, scratch, cfg=None, shards=None, timeout=900):
     t0 = time.time()
     with ThreadPoolExecutor(max_workers=shards) as ex:
         futs = [
-            ex.submit(_validate_shard, module, cfg, ch, scratch, i, timeout)
+            ex.submit(_validate_shard, module, cfg, ch, scratch, i, timeout, env)
             for i, ch in enumerate(chunks)
             if ch
         ]
